@@ -22,6 +22,7 @@ import (
 	"github.com/go-kid/ioc/configure/binder"
 	"github.com/go-kid/ioc/container/factory"
 	"github.com/go-kid/ioc/container/support"
+	"github.com/go-kid/ioc/definition"
 	"github.com/go-kid/ioc/syslog"
 	"github.com/go-kid/ioc/util/framework_helper"
 )
@@ -109,9 +110,10 @@ type ldP struct{ ldO }
 func (x *ldP) Priority() {}
 
 // class "mark": carries the Priority marker but has no Order() - not priority-ORDERED, the contract treats it as unordered
-type ldM struct{ ldU }
-
-func (x *ldM) Priority() {}
+type ldM struct { // through the library's embeddable PriorityComponent
+	ldU
+	definition.PriorityComponent
+}
 
 // ---- user post-processors
 type ppU struct {
@@ -248,6 +250,26 @@ func (x *closerC) Close() error {
 	return nil
 }
 
+// ---- loaders and user post-processors of field-less types (one of each; the first marked participant of class "un" takes it)
+var (
+	zld *ldU
+	zpp *ppU
+)
+
+type ldZ struct{}
+
+func (*ldZ) LoadConfig() ([]byte, error) { return zld.LoadConfig() }
+
+type ppZ struct{}
+
+func (*ppZ) Naming() string { return zpp.name }
+func (*ppZ) PostProcessBeforeInitialization(c any, name string) (any, error) {
+	return zpp.PostProcessBeforeInitialization(c, name)
+}
+func (*ppZ) PostProcessAfterInitialization(c any, name string) (any, error) {
+	return zpp.PostProcessAfterInitialization(c, name)
+}
+
 // ---- closers of field-less types (three distinct zero-size types: all of their instances share one address); their scenario
 // data lives in package variables like the runners'
 var zcl [3]*closerC
@@ -298,6 +320,7 @@ func runAppScenario(sc *AScenario) []map[string]any {
 	rnd := rand.New(rand.NewSource(sc.Seed))
 	var comps []any
 	var loaders []configure.Loader
+	zldUsed, zppUsed := false, false
 	for i, p := range sc.Loaders {
 		b := ldU{l, i + 1, p}
 		switch p.Cls {
@@ -306,9 +329,14 @@ func runAppScenario(sc *AScenario) []map[string]any {
 		case "ord":
 			loaders = append(loaders, &ldO{b})
 		case "mark":
-			loaders = append(loaders, &ldM{b})
+			loaders = append(loaders, &ldM{ldU: b})
 		default:
 			x := b
+			if p.Zero && !zldUsed {
+				zldUsed, zld = true, &x
+				loaders = append(loaders, &ldZ{})
+				continue
+			}
 			loaders = append(loaders, &x)
 		}
 	}
@@ -323,6 +351,11 @@ func runAppScenario(sc *AScenario) []map[string]any {
 			comps = append(comps, &ppM{b})
 		default:
 			x := b
+			if p.Zero && !zppUsed && !sc.Cycle {
+				zppUsed, zpp = true, &x
+				comps = append(comps, &ppZ{})
+				continue
+			}
 			comps = append(comps, &x)
 		}
 	}
